@@ -17,9 +17,17 @@
    and retries of failed runs, every binding type, every queue, hooks sharing queues,
    executions that are skipped after the call.  [run_lim cfg (init_lim hs) script] runs a
    script of timed actions (Boot / Tick / KubeEv / Finish ok|fail / Stop); its ghost log
-   lists every limiter call and every execution start.  Waking up from a wait is not
-   modelled (a queue that waits stays waiting; see C18_Model): the bound is proved for
-   every script all the same, the correspondence stays inside that domain. *)
+   lists every limiter call and every execution start.  A worker that has to wait sleeps
+   until the instant of ITS OWN reservation and then goes on with its task; several workers
+   (the hook's bindings sit in different queues) may sleep for one hook at once, their
+   reservations stack (C18_stacked_reservations, C18_concurrent_waiters).  The bound is proved
+   for every script: executions that start at once and executions that start after a sleep.
+
+   Timed correspondence (instants observed late, see C18_Spec [anchored_ok]):
+   C18_late_observation_sound shows that the judgement used on measured start instants cannot
+   fail because of the delay between a start and its observation; C18_grants_monotone is the
+   reason why the implementation's k-th start may be compared one-sidedly (never earlier) with
+   the model's, whose requests happen at the earliest possible instants. *)
 From Verif Require Import Common C18_Model C18_Spec C18_Proofs.
 Open Scope Z_scope.
 
@@ -171,7 +179,7 @@ Example C18_op_hyp_met :
   starts_all (l_log ls) = [(1%N, 1000000)] /\
   reqs_of 1 (l_log ls) = [1000000; 3000000] /\
   acts_of 1 (l_log ls) = [Some 1000000; Some 60001000000] /\
-  l_waiting ls = [(1%N, Some 60001000000)] /\
+  l_waiting ls = [(1%N, Some 60001000000, 1%N)] /\
   throttled_in (l_log ls) = [1%N] /\
   l_overrun ls = false /\
   map (fun q => (q_name q, length (q_items q), is_running q)) (queues (l_op ls)) = [(0%N, 0%nat, false); (1%N, 4%nat, false)].
@@ -190,3 +198,101 @@ Proof.
   intros h. unfold init_limiters, settings_of. cbn [find fst snd].
   destruct (N.eqb 1 h); [reflexivity|]. destruct (N.eqb 2 h); reflexivity.
 Qed.
+
+(* ---- concurrent waiters of one hook ---- *)
+
+(* stacked reservations: a request that has to wait is granted at most one interval after
+   the request before it, and exactly one interval after it when that one had to wait too:
+   the k-th of several sleepers wakes up k intervals after the bucket ran empty - each
+   sleeper has to sleep until its OWN instant *)
+Theorem C18_stacked_reservations : forall I B arrivals,
+  0 < I -> 1 <= B -> sortedb arrivals = true ->
+  forall i ti tj ai aj,
+  nth_error arrivals i = Some ti -> nth_error arrivals (S i) = Some tj ->
+  nth_error (grants (create_rate_limiter (Some (mkSettings I B))) arrivals) i = Some (Some ai) ->
+  nth_error (grants (create_rate_limiter (Some (mkSettings I B))) arrivals) (S i) = Some (Some aj) ->
+  tj < aj -> aj <= ai + I /\ (ti < ai -> aj = ai + I).
+Proof. exact stacked_reservations. Qed.
+Print Assumptions C18_stacked_reservations.
+
+(* n workers ask at one instant t: the first B go on at once, the (B+k)-th at t + k*I *)
+Theorem C18_concurrent_waiters : forall I B t n k,
+  0 < I -> 1 <= B -> (k < n)%nat ->
+  nth_error (grants (create_rate_limiter (Some (mkSettings I B))) (repeat t n)) k
+  = Some (Some (t + Z.max 0 (Z.of_nat k + 1 - B) * I)).
+Proof. exact concurrent_waiters. Qed.
+Print Assumptions C18_concurrent_waiters.
+
+(* requests that come later (one by one) are granted later (one by one) *)
+Theorem C18_grants_monotone : forall I B arr arr',
+  0 < I -> 1 <= B -> Forall2 Z.le arr arr' -> sortedb arr = true -> sortedb arr' = true ->
+  Forall2 Z.le (somes (grants (create_rate_limiter (Some (mkSettings I B))) arr))
+               (somes (grants (create_rate_limiter (Some (mkSettings I B))) arr')).
+Proof. exact grants_monotone. Qed.
+Print Assumptions C18_grants_monotone.
+
+(* operator level: the sleepers of a hook hold grants of its limiter that nobody else uses -
+   the starts so far and the pending wake-up instants together are a sub-multiset of the
+   grants (so no two sleepers wake up on the same grant, and none earlier than its grant) *)
+Theorem C18_op_sleepers_hold_grants : forall cfg hs script h,
+  sortedb (map fst script) = true ->
+  let ls := run_lim cfg (init_lim hs) script in
+  forall v, (cnt (starts_in h (l_log ls)) v + cnt (pend h (l_waiting ls)) v
+             <= cnt (somes (grants (create_rate_limiter (settings_of hs h)) (reqs_of h (l_log ls)))) v)%nat.
+Proof. exact op_sleepers_hold_grants. Qed.
+Print Assumptions C18_op_sleepers_hold_grants.
+
+(* judging instants that are observed late: if the real starts respect the limit, every
+   start is observed at or after it happened, and every start observed at or after the
+   anchor a happened at or after a, then the anchored judgement on the OBSERVED instants
+   holds: no delay between a start and its observation can raise a false alarm *)
+Theorem C18_late_observation_sound : forall I B a reals meas,
+  0 < I -> respects_limit I B reals -> Forall2 Z.le reals meas -> sortedb meas = true ->
+  (forall r x, In (r, x) (List.combine reals meas) -> a <= x -> a <= r) ->
+  anchored_ok I B a meas = true.
+Proof. exact late_observation_sound. Qed.
+Print Assumptions C18_late_observation_sound.
+
+(* the anchored predicate used on timed observations holds of the model, for every script
+   (sleeping and waking up included) and every list of anchors *)
+Theorem C18_op_P_timed_holds : forall cfg hs script anchors,
+  sortedb (map fst script) = true ->
+  P_timed hs anchors (starts_all (final_log cfg hs script)) = true.
+Proof. exact op_P_timed_holds. Qed.
+Print Assumptions C18_op_P_timed_holds.
+
+(* non-vacuity: hook 1 (I = 100 ms, B = 1) has schedule bindings in queues 1 and 2, both on
+   crontab 1, and a third one in queue 1 on crontab 2.  One tick feeds both queues: queue 1
+   starts at once, queue 2 sleeps until 110 ms.  Queue 1 finishes and is fed again at 20 ms:
+   its reservation stacks behind the sleeper's (210 ms).  Both wake up at their own instants,
+   in the order of the grants; nothing is left waiting. *)
+Example C18_op_wake_hyp_met :
+  let cfg := [mkHook 1 false None [] [mkSb 1 1 0 false 1; mkSb 2 2 0 false 1; mkSb 3 1 0 false 2]] in
+  let hs := [(1%N, Some (mkSettings 100000000 1))] in
+  let ms := 1000000 in
+  let script := [(0, Boot); (10 * ms, Tick 1); (12 * ms, Finish 1 true); (20 * ms, Tick 2);
+                 (250 * ms, Finish 2 true); (260 * ms, Finish 1 true); (400 * ms, Idle)] in
+  let ls := run_lim cfg (init_lim hs) script in
+  sortedb (map fst script) = true /\
+  l_waiting (run_lim cfg (init_lim hs) (firstn 4 script)) = [(2%N, Some (110 * ms), 1%N); (1%N, Some (210 * ms), 1%N)] /\
+  reqs_of 1 (l_log ls) = [10 * ms; 10 * ms; 20 * ms] /\
+  acts_of 1 (l_log ls) = [Some (10 * ms); Some (110 * ms); Some (210 * ms)] /\
+  starts_all (l_log ls) = [(1%N, 10 * ms); (1%N, 110 * ms); (1%N, 210 * ms)] /\
+  l_waiting ls = [] /\
+  map (fun q => (q_name q, length (q_items q), is_running q)) (queues (l_op ls))
+    = [(0%N, 0%nat, false); (1%N, 0%nat, false); (2%N, 0%nat, false)] /\
+  P_timed hs [0; 10 * ms] (starts_all (l_log ls)) = true.
+Proof. cbv zeta. repeat split; vm_compute; reflexivity. Qed.
+
+(* the anchored predicate is not vacuous: sleepers that wake up one interval after they fell
+   asleep instead of at their own (stacked) instants - two queues, each starting once per
+   interval - are rejected; so is a third start within the first interval *)
+Example C18_P_timed_rejects :
+  let hs := [(1%N, Some (mkSettings 100 1))] in
+  P_timed hs [0] [(1%N, 0); (1%N, 100); (1%N, 110); (1%N, 200); (1%N, 210)] = false /\
+  P_timed hs [0] [(1%N, 0); (1%N, 100); (1%N, 200); (1%N, 300); (1%N, 400)] = true /\
+  P_timed hs [0] [(1%N, 0); (1%N, 50); (1%N, 60)] = false /\
+  P_timed hs [0; 1000] [(1%N, 0); (1%N, 1000); (1%N, 1001)] = true /\
+  P_timed hs [0; 1000] [(1%N, 0); (1%N, 1000); (1%N, 1001); (1%N, 1002)] = false /\
+  grants (create_rate_limiter (Some (mkSettings 100 2))) [5; 5; 5; 5] = [Some 5; Some 5; Some 105; Some 205].
+Proof. cbv zeta. repeat split; vm_compute; reflexivity. Qed.
